@@ -84,6 +84,8 @@ MUTANTS: Dict[str, List[M]] = {
         ("sub-command settings stored whatever their type", "_core.py", "                elif action is not None and split_key_leaf(key)[-1] != action.dest:\n                    raise TypeError(f'Expected the settings of subcommand \"{key}\" to be a dict, but got: {value!r}')\n", "", "C03.R9"),
         ("sub-command settings check skips None", "_core.py", "                elif action is not None and split_key_leaf(key)[-1] != action.dest:", "                elif action is not None and value is not None and split_key_leaf(key)[-1] != action.dest:", "C03.R9"),
         ("TYPE_CHECKING blocks executed under a narrow handler", "_postponed_annotations.py", "                exec(compile(ast_exec, filename=\"<ast>\", mode=\"exec\"), self.aliases, self.aliases)\n            except Exception as ex:", "                exec(compile(ast_exec, filename=\"<ast>\", mode=\"exec\"), self.aliases, self.aliases)\n            except (NameError, ImportError) as ex:", "C03.R8"),
+        ("Path probes text with a NUL", "_util.py", "            if isinstance(path, str) and \"\\0\" in path:\n                raise PathError(f\"Path contains a null byte: {path!r}\")\n", "", "C03.R11"),
+        ("jsonnet ValueError not converted", "_jsonnet.py", "        except (RuntimeError, ValueError) as ex:\n            raise argument_error(f'Problems evaluating jsonnet", "        except RuntimeError as ex:\n            raise argument_error(f'Problems evaluating jsonnet", "C03.R11"),
         ("subcommand parser does not inherit exit_on_error", "_actions.py", "        parser.exit_on_error = self.parent_parser.exit_on_error\n", "", "C03.R3"),
         ("ActionTypeHint no longer converts ValueError", "_typehints.py", "            except (TypeError, ValueError) as ex:\n                if self._is_valid_string(val):", "            except TypeError as ex:\n                if self._is_valid_string(val):", "C03.R4"),
     ],
